@@ -41,6 +41,17 @@ add("C08", "exploration",
     "Trusts EnumRNG, the harness' placement enumeration (count cross-checked against r + 2^r + outlier) and phyclone's joint density log_p (itself checked in C03).",
     "DESIGN.md section 5 C08")
 
+add("C02", "exploration",
+    "property-based testing against a reference model: brute-force sum == independent exact log-space DP (self-check), then an interval (bracket) oracle around the exact marginal with the statement's floor semantics, incl. FFT path",
+    "Generated forests (any branching, 1-4 roots, dims 1-4, grids 2..1500 crossing the direct/FFT switch, extreme ranges) are compared entry-wise (root and every clone) with a bracket that collapses to floating-point agreement above the floor.",
+    "Trusts scipy.logsumexp and the harness' own exact recursion (validated against the literal brute-force sum on small cases in the same run).",
+    "DESIGN.md section 5 C02")
+add("C03", "exploration",
+    "property-based testing against a reference model (FS-CRP density written from the property text) plus metamorphic identity over build representations",
+    "Both joint densities are compared (1e-8) with an independent model on generated trees/alpha/outlier priors; the same tree built 3 different ways must give identical values, ==, hash; different keys must be unequal.",
+    "Trusts math.lgamma / scipy and the independent DP marginal of C02.",
+    "DESIGN.md section 5 C03")
+
 NOT_APPLICABLE = []
 
 def main():
